@@ -237,6 +237,8 @@ def _type_of_kind(d, kind, depth):
         alts = [(draw_type(d, depth - 1, root=False, allow_any=False), 'req') for _ in range(n)]
         _make_distinct(d, alts, sequence_rule=False)
         return ir.mk('CHOICE', alts=[{'name': _NAMES[i], 't': t} for i, (t, _p) in enumerate(alts)])
+    if kind in ('TeletexString', 'VisibleString') and d.pct(30):
+        return ir.mk(kind, alias=True)
     return ir.mk(kind)
 
 
@@ -622,7 +624,8 @@ def shared_base_case(d):
     base = draw_type(D(d.draw, dict(d.cfg, tags=False, any=False)), 1, root=False, allow_any=False)
     if base['k'] not in ir.CONSTRUCTED_KINDS or base['k'] in ('SET', 'SETOF'):
         base = ir.mk('SEQUENCE', comps=[ir.comp('x', ir.mk('INTEGER')), ir.comp('y', ir.mk('OCTETSTRING'), 'opt')])
-    cp = lambda tags: dict(ir.from_jsonable(ir.to_jsonable(base)), tags=tags, share='base')
+    how = d.pick(['base', 'base', 'clone'])
+    cp = lambda tags: dict(ir.from_jsonable(ir.to_jsonable(base)), tags=tags, share=how)
     T = ir.mk('SEQUENCE', comps=[ir.comp('p', cp([[ 'I', 'C', 0]])), ir.comp('q', cp([['E', 'C', 1]])), ir.comp('r', cp([]), 'opt')])
     v = {'p': draw_value(d, base), 'q': draw_value(d, base)}
     if d.pct(70):
